@@ -266,5 +266,34 @@ def r11_5(ctx):
     return r
 
 
+def r11_6(ctx):
+    """once a side is Connected its flight timer stops; the stored last flight is then the only thing that can
+    answer a peer that is still retransmitting (R11.3). It must therefore persist until the next flight replaces
+    it: it is only ever assigned Some(new flight) - never taken, cleared or set to None after construction."""
+    r = RuleResult("R11.6", "K3", "the stored last flight is only ever replaced, never consumed")
+    n = 0
+    for b in ctx.facts.bodies(prefix="transports::dtls::"):
+        if "::tests::" in b.name:
+            continue
+        for bi, si, st in core.field_writes(b, lambda f: f == "last_flight_records", deep=True):
+            n += 1
+            if si is None:
+                r.violate(b.name, "write:last_flight_records", b.where(bi), "stored flight overwritten by a call result")
+                continue
+            v = b.term_rvalue(st["rv"])
+            if v[0] == "agg" and v[2] == "Some":
+                r.ok({"site": b.where(bi, si), "store": "Some(new flight)"})
+            elif v[0] == "agg" and v[2] == "None" and b.name.endswith("HandshakeContext::new"):
+                r.ok({"site": b.where(bi, si), "store": "None at construction"})
+            elif v[0] == "unknown":
+                r.violate(b.name, "mutborrow:last_flight_records", b.where(bi, si),
+                          "the stored flight is borrowed mutably (take/replace/clear): once consumed, a peer that is still "
+                          "retransmitting is never answered again and the handshake cannot converge")
+            else:
+                r.violate(b.name, "write:last_flight_records", b.where(bi, si), "stored flight set to %s" % mir.show(v, 60))
+    r.need("stores of the last flight", n, 4)
+    return r
+
+
 def run(ctx):
-    return [r11_1(ctx), r11_2(ctx), r11_3(ctx), r11_4(ctx), r11_5(ctx)]
+    return [r11_1(ctx), r11_2(ctx), r11_3(ctx), r11_4(ctx), r11_5(ctx), r11_6(ctx)]
